@@ -244,8 +244,19 @@ fn encode_block(
     if let Some(encoder) = block_content_encoder_map.get_data_series_encoder(block_content_id) {
         match encoder {
             Some(Encoder::Fqzcomp) => {
-                if all_quality_scores_stored_as_arrays {
-                    let lens: Vec<_> = records.iter().map(|r| r.read_length).collect();
+                // fqzcomp models a block as one quality scores array per record. Records without
+                // bases have no array, and a block that also holds the scores of features (or is
+                // another data series) is not a list of such arrays.
+                let lens: Vec<_> = records
+                    .iter()
+                    .map(|r| r.read_length)
+                    .filter(|&len| len > 0)
+                    .collect();
+
+                let is_list_of_quality_scores = all_quality_scores_stored_as_arrays
+                    && lens.iter().sum::<usize>() == src.len();
+
+                if is_list_of_quality_scores {
                     let data = fqzcomp::encode(&lens, src)?;
 
                     Ok(Block {
